@@ -377,3 +377,825 @@ Proof.
     + rewrite <- dps_join by (assumption || discriminate). reflexivity.
     + intros E. apply join_nil_iff in E; [discriminate|assumption].
 Qed.
+
+(* ------------------------------------------------------------------ well-formed universes *)
+Definition names_of (f : file) : list name := map fst (f_syms f).
+
+Record wf (U : universe) : Prop := {
+  wf_pkg : forall f, In f (u_files U) -> pkg_ok (f_pkg f) = true;
+  wf_nodup : nodup_names (all_names U) = true;
+  wf_nopkg : forall n, In n (all_names U) -> Spec.is_package U n = false;
+  wf_parent : forall f n, In f (u_files U) -> In n (names_of f) -> parent_ok f n = true }.
+
+Lemma wf_universe_wf U : wf_universe U = true -> wf U.
+Proof.
+  unfold wf_universe. intros H.
+  apply andb_true_iff in H. destruct H as [H H4].
+  apply andb_true_iff in H. destruct H as [H H3].
+  apply andb_true_iff in H. destruct H as [H1 H2].
+  constructor.
+  - intros f Hf. rewrite forallb_forall in H1. now apply H1.
+  - assumption.
+  - intros n Hn. rewrite forallb_forall in H3. apply H3 in Hn. now apply negb_true_iff in Hn.
+  - intros f n Hf Hn. rewrite forallb_forall in H4. specialize (H4 f Hf). rewrite forallb_forall in H4.
+    unfold names_of in Hn. apply in_map_iff in Hn. destruct Hn as (nk & <- & Hnk). now apply H4.
+Qed.
+
+Lemma pkg_ok_no_lead p : pkg_ok p = true -> starts_with_dot p = false.
+Proof. intros H. apply pkg_ok_comps in H. destruct H as [H1 H2]. rewrite <- H2. now apply join_no_lead. Qed.
+
+Lemma has_prefix_same_len s p : has_prefix s p = true -> length s = length p -> s = p.
+Proof.
+  intros H L. apply has_prefix_app in H. destruct H as [r ->]. rewrite app_length in L.
+  destruct r; [now rewrite app_nil_r|cbn in L; lia].
+Qed.
+
+(* matchesPkgNamespace is protoc's IsInPackage (for a non-empty name) *)
+Lemma mpn_eq f n : pkg_ok (f_pkg f) = true ->
+  matches_pkg_namespace n (f_pkg f) = negb (is_nil n) && Spec.is_in_package f n.
+Proof.
+  intros Hok. unfold matches_pkg_namespace, Spec.is_in_package. destruct (f_pkg f) as [|x p] eqn:Ep.
+  - cbn [is_nil]. destruct n; reflexivity.
+  - cbn [is_nil]. rewrite <- Ep in *. destruct (name_eqb n (f_pkg f)) eqn:E.
+    + apply name_eqb_eq in E. subst n. rewrite has_prefix_refl, Nat.eqb_refl, Ep. reflexivity.
+    + apply name_eqb_neq in E. destruct (has_prefix (f_pkg f) n) eqn:HP.
+      * rewrite andb_true_r. cbn [andb]. destruct n as [|y n'].
+        -- cbn [length is_nil negb andb]. rewrite Ep. cbn [length nth_error Nat.ltb Nat.leb].
+           apply pkg_ok_no_lead in Hok. rewrite Ep in Hok. cbn [starts_with_dot] in Hok. now rewrite Hok.
+        -- cbn [is_nil negb andb]. pose proof (has_prefix_length _ _ HP) as L.
+           destruct (Nat.eqb (length (f_pkg f)) (length (y :: n'))) eqn:EL.
+           ++ apply Nat.eqb_eq in EL. exfalso. apply E. symmetry. now apply has_prefix_same_len.
+           ++ apply Nat.eqb_neq in EL. cbn [orb].
+              replace (length (y :: n') <? length (f_pkg f))%nat with true; [reflexivity|].
+              symmetry. apply Nat.ltb_lt. lia.
+      * rewrite andb_false_r. cbn [andb]. now rewrite andb_false_r.
+Qed.
+
+Lemma first_some_Some {A} (fn : file -> option A) fs x :
+  Spec.first_some fn fs = Some x -> exists f, In f fs /\ fn f = Some x.
+Proof.
+  induction fs as [|f fs IH]; cbn [Spec.first_some]; [discriminate|].
+  destruct (fn f) eqn:E.
+  - intros H. injection H as <-. exists f. split; [now left|assumption].
+  - intros H. apply IH in H. destruct H as (g & Hg & Hx). exists g. split; [now right|assumption].
+Qed.
+
+Lemma first_some_None {A} (fn : file -> option A) fs :
+  Spec.first_some fn fs = None -> forall f, In f fs -> fn f = None.
+Proof.
+  induction fs as [|f fs IH]; cbn [Spec.first_some]; [contradiction|].
+  destruct (fn f) eqn:E; [discriminate|]. intros H g [<-|Hg]; auto.
+Qed.
+
+Lemma in_all_names U f n : In f (u_files U) -> In n (names_of f) -> In n (all_names U).
+Proof. intros Hf Hn. unfold all_names. apply in_flat_map. exists f. split; assumption. Qed.
+
+Definition from_find (n : name) (r : option Spec.skind) : gres :=
+  match r with
+  | Some (Spec.SK k) => GDesc n k
+  | Some Spec.SKPackage => GSentinel n
+  | None => GNil
+  end.
+
+Lemma reif_nolead n f : starts_with_dot n = false ->
+  resolve_element_in_file n f =
+  match assoc n (f_syms f) with
+  | Some k => GDesc n k
+  | None => if matches_pkg_namespace n (f_pkg f) then GSentinel n else GNil
+  end.
+Proof. intros H. unfold resolve_element_in_file, find_desc, trim_dot. now rewrite H. Qed.
+
+Lemma first_hit_nopkg n fs : starts_with_dot n = false ->
+  (forall f, In f fs -> matches_pkg_namespace n (f_pkg f) = false) ->
+  first_hit (resolve_element_in_file n) fs =
+  match Spec.first_some (fun f => assoc n (f_syms f)) fs with Some k => GDesc n k | None => GNil end.
+Proof.
+  intros Hn. induction fs as [|f fs IH]; intros H; cbn [first_hit Spec.first_some]; [reflexivity|].
+  rewrite reif_nolead by assumption. destruct (assoc n (f_syms f)); [reflexivity|].
+  rewrite (H f) by now left. apply IH. intros g Hg. apply H. now right.
+Qed.
+
+Lemma first_hit_nosym n fs : starts_with_dot n = false ->
+  (forall f, In f fs -> assoc n (f_syms f) = None) ->
+  first_hit (resolve_element_in_file n) fs =
+  if existsb (fun f => matches_pkg_namespace n (f_pkg f)) fs then GSentinel n else GNil.
+Proof.
+  intros Hn. induction fs as [|f fs IH]; intros H; cbn [first_hit existsb]; [reflexivity|].
+  rewrite reif_nolead by assumption. rewrite (H f) by now left.
+  destruct (matches_pkg_namespace n (f_pkg f)); [reflexivity|]. cbn [orb]. apply IH. intros g Hg. apply H. now right.
+Qed.
+
+Lemma existsb_mpn n fs : (forall f, In f fs -> pkg_ok (f_pkg f) = true) ->
+  existsb (fun f => matches_pkg_namespace n (f_pkg f)) fs
+  = negb (is_nil n) && existsb (fun f => Spec.is_in_package f n) fs.
+Proof.
+  induction fs as [|f fs IH]; intros H; cbn [existsb]; [now rewrite andb_false_r|].
+  rewrite mpn_eq by (apply H; now left). rewrite IH by (intros g Hg; apply H; now right).
+  now rewrite andb_orb_distrib_r.
+Qed.
+
+Lemma not_package_mpn U n f : wf U -> Spec.is_package U n = false -> In f (u_files U) ->
+  matches_pkg_namespace n (f_pkg f) = false.
+Proof.
+  intros W Hp Hf. rewrite mpn_eq by now apply (wf_pkg U W). unfold Spec.is_package in Hp.
+  destruct (negb (is_nil n)); [|reflexivity]. cbn [andb] in *.
+  destruct (Spec.is_in_package f n) eqn:E; [|reflexivity].
+  assert (X : existsb (fun f0 => Spec.is_in_package f0 n) (u_files U) = true) by (apply existsb_exists; eauto).
+  congruence.
+Qed.
+
+(* resolveElement over the visible files is protoc's FindSymbol *)
+Lemma Q_spec U n : wf U -> starts_with_dot n = false ->
+  resolve_element U n = from_find n (Spec.find_symbol U n).
+Proof.
+  intros W Hn. unfold resolve_element, Spec.find_symbol. unfold trim_dot. rewrite Hn.
+  destruct (Spec.first_some (fun f => assoc n (f_syms f)) (u_files U)) as [k|] eqn:E.
+  - rewrite first_hit_nopkg; [now rewrite E|assumption|].
+    intros f Hf. apply (not_package_mpn U); try assumption. apply (wf_nopkg U W).
+    apply first_some_Some in E. destruct E as (g & Hg & Hk). apply (in_all_names U g); [assumption|].
+    now apply assoc_In in Hk.
+  - rewrite first_hit_nosym; [|assumption|now apply first_some_None].
+    rewrite existsb_mpn by apply (wf_pkg U W). unfold Spec.is_package.
+    destruct (negb (is_nil n) && existsb (fun f => Spec.is_in_package f n) (u_files U)); reflexivity.
+Qed.
+
+Lemma find_symbol_package U n : Spec.find_symbol U n = Some Spec.SKPackage -> Spec.is_package U n = true.
+Proof.
+  unfold Spec.find_symbol. destruct (Spec.first_some _ _); [discriminate|].
+  destruct (Spec.is_package U n); [reflexivity|discriminate].
+Qed.
+
+Lemma to_spec_from_find U n r : Spec.find_symbol U n = r -> Spec.to_spec U (from_find n r) = Spec.of_find n r.
+Proof.
+  intros H. destruct r as [[k|]|]; cbn [from_find Spec.to_spec Spec.of_find]; try reflexivity.
+  apply find_symbol_package in H. now rewrite H.
+Qed.
+
+(* ---- names under a message of the file being linked are only ever defined in that file ---- *)
+Lemma iip_self f M : f_pkg f = M -> Spec.is_in_package f M = true.
+Proof. intros <-. unfold Spec.is_in_package. now rewrite has_prefix_refl, Nat.eqb_refl. Qed.
+
+Lemma iip_child f M x : f_pkg f = M ++ dot :: x -> Spec.is_in_package f M = true.
+Proof.
+  intros E. unfold Spec.is_in_package. rewrite E.
+  replace (has_prefix (M ++ dot :: x) M) with true by (symmetry; apply has_prefix_app; eauto).
+  rewrite nth_error_app2 by lia. rewrite Nat.sub_diag. cbn [nth_error]. rewrite N.eqb_refl. now rewrite orb_true_r.
+Qed.
+
+Lemma iip_prefix f M x : Spec.is_in_package f (M ++ dot :: x) = true -> Spec.is_in_package f M = true.
+Proof.
+  unfold Spec.is_in_package. intros H. apply andb_true_iff in H. destruct H as [H _].
+  apply has_prefix_app in H. destruct H as [r H]. rewrite <- app_assoc in H. cbn [app] in H.
+  now apply (iip_child f M (x ++ r)).
+Qed.
+
+Lemma is_package_prefix U M x : M <> [] -> Spec.is_package U (M ++ dot :: x) = true -> Spec.is_package U M = true.
+Proof.
+  intros HM. unfold Spec.is_package. intros H. apply andb_true_iff in H. destruct H as [_ H].
+  apply existsb_exists in H. destruct H as (f & Hf & Hp). apply iip_prefix in Hp.
+  apply andb_true_iff. split; [destruct M; [contradiction|reflexivity]|]. apply existsb_exists. eauto.
+Qed.
+
+Lemma firstn_app_dot M x i : (length M < i)%nat ->
+  firstn i (M ++ dot :: x) = M ++ dot :: firstn (i - S (length M)) x.
+Proof.
+  intros H. rewrite firstn_app. rewrite firstn_all2 by lia.
+  replace (i - length M)%nat with (S (i - S (length M))) by lia. reflexivity.
+Qed.
+
+Lemma ancestor g M : Spec.is_in_package g M = false ->
+  (forall n, In n (names_of g) -> parent_ok g n = true) ->
+  forall len x, (length x <= len)%nat -> In (M ++ dot :: x) (names_of g) -> In M (names_of g).
+Proof.
+  intros Hnp Hpar. induction len as [|len IH]; intros x Hl Hin.
+  - destruct x; [|cbn in Hl; lia]. specialize (Hpar _ Hin). unfold parent_ok, strip_last in Hpar.
+    rewrite fld_app_nodot in Hpar by reflexivity. rewrite firstn_app, Nat.sub_diag, firstn_all in Hpar.
+    cbn [firstn] in Hpar. rewrite app_nil_r in Hpar. apply orb_true_iff in Hpar. destruct Hpar as [Hp|Hp].
+    + apply name_eqb_eq in Hp. symmetry in Hp. apply iip_self in Hp. congruence.
+    + now apply mem_name_In.
+  - pose proof (Hpar _ Hin) as Hp. unfold parent_ok, strip_last in Hp.
+    destruct (fld_app_ge M x) as (i & Ei & Hi). rewrite Ei in Hp.
+    destruct (Nat.eq_dec i (length M)) as [->|Hne].
+    + rewrite firstn_app, Nat.sub_diag, firstn_all in Hp. cbn [firstn] in Hp. rewrite app_nil_r in Hp.
+      apply orb_true_iff in Hp. destruct Hp as [Hp|Hp].
+      * apply name_eqb_eq in Hp. symmetry in Hp. apply iip_self in Hp. congruence.
+      * now apply mem_name_In.
+    + rewrite firstn_app_dot in Hp by lia. apply orb_true_iff in Hp. destruct Hp as [Hp|Hp].
+      * apply name_eqb_eq in Hp. symmetry in Hp. apply iip_child in Hp. congruence.
+      * apply mem_name_In in Hp. apply IH in Hp; [assumption|]. rewrite firstn_length. lia.
+Qed.
+
+Lemma nodup_names_app a b x : nodup_names (a ++ b) = true -> In x a -> In x b -> False.
+Proof.
+  induction a as [|y a IH]; cbn [app nodup_names]; [contradiction|].
+  intros H [->|Ha] Hb; apply andb_true_iff in H; destruct H as [H1 H2].
+  - apply negb_true_iff in H1. assert (X : mem_name x (a ++ b) = true) by (apply mem_name_In, in_or_app; now right). congruence.
+  - now apply IH.
+Qed.
+
+Lemma self_only U M x : wf U -> M <> [] -> In M (names_of (u_self U)) ->
+  Spec.first_some (fun f => assoc (M ++ dot :: x) (f_syms f)) (u_files U) = assoc (M ++ dot :: x) (f_syms (u_self U)).
+Proof.
+  intros W HM Hself. unfold u_files. cbn [Spec.first_some].
+  destruct (assoc (M ++ dot :: x) (f_syms (u_self U))) eqn:E; [reflexivity|].
+  destruct (Spec.first_some _ (u_deps U)) as [k|] eqn:E2; [|reflexivity]. exfalso.
+  apply first_some_Some in E2. destruct E2 as (g & Hg & Hk). apply assoc_In in Hk.
+  assert (HgU : In g (u_files U)) by now right.
+  assert (HnpU : Spec.is_package U M = false).
+  { apply (wf_nopkg U W). apply (in_all_names U (u_self U)); [now left|assumption]. }
+  assert (Hnp : Spec.is_in_package g M = false).
+  { unfold Spec.is_package in HnpU. destruct M; [contradiction|]. cbn [is_nil negb andb] in HnpU.
+    destruct (Spec.is_in_package g (n :: M)) eqn:Eg; [|reflexivity].
+    assert (X : existsb (fun f => Spec.is_in_package f (n :: M)) (u_files U) = true) by (apply existsb_exists; eauto).
+    congruence. }
+  assert (HMg : In M (names_of g)).
+  { apply (ancestor g M Hnp) with (len := length x) (x := x); [|lia|exact Hk].
+    intros n Hn. now apply (wf_parent U W). }
+  pose proof (wf_nodup U W) as ND. unfold all_names, u_files in ND. cbn [flat_map] in ND.
+  apply (nodup_names_app _ _ M ND); [exact Hself|]. apply in_flat_map. exists g. split; assumption.
+Qed.
+
+Lemma msg_query_eq U M x : wf U -> M <> [] -> starts_with_dot M = false -> In M (names_of (u_self U)) ->
+  query_self U (M ++ dot :: x) = query_all U (M ++ dot :: x).
+Proof.
+  intros W HM Hl Hself. unfold query_self, query_all.
+  assert (Hn : starts_with_dot (M ++ dot :: x) = false) by now apply app_no_lead.
+  rewrite Q_spec by assumption. rewrite reif_nolead by assumption.
+  assert (HnpM : Spec.is_package U M = false).
+  { apply (wf_nopkg U W). apply (in_all_names U (u_self U)); [now left|assumption]. }
+  assert (Hnp : Spec.is_package U (M ++ dot :: x) = false).
+  { destruct (Spec.is_package U (M ++ dot :: x)) eqn:E; [|reflexivity]. apply is_package_prefix in E; [congruence|assumption]. }
+  unfold Spec.find_symbol. rewrite self_only by assumption. rewrite Hnp.
+  destruct (assoc (M ++ dot :: x) (f_syms (u_self U))); [reflexivity|].
+  rewrite (not_package_mpn U) by (assumption || now left). reflexivity.
+Qed.
+
+(* ------------------------------------------------------------------ one scope of the search *)
+Definition gstep (U : universe) (sc first nm : name) : gres :=
+  resolve_element_relative (sc ++ dot :: first) (sc ++ dot :: nm) (query_all U).
+Definition groot (U : universe) (nm : name) : gres := resolve_element_relative nm nm (query_all U).
+
+Lemma is_aggregate_from_find n k : is_aggregate_g (from_find n (Some k)) = Spec.is_aggregate k.
+Proof. destruct k as [[]|]; reflexivity. Qed.
+Lemma is_type_from_find n k : is_type_g (from_find n (Some k)) = Spec.is_type k.
+Proof. destruct k as [[]|]; reflexivity. Qed.
+
+Definition gstep_val (U : universe) (sc first nm : name) : gres :=
+  match Spec.find_symbol U (sc ++ dot :: first) with
+  | None => GNil
+  | Some k =>
+    if name_eqb first nm then from_find (sc ++ dot :: first) (Some k)
+    else if negb (Spec.is_aggregate k) then GNil
+    else match Spec.find_symbol U (sc ++ dot :: nm) with
+         | None => GSentinel (sc ++ dot :: nm)
+         | Some k' => from_find (sc ++ dot :: nm) (Some k')
+         end
+  end.
+
+Lemma name_eqb_scope sc a b : name_eqb (sc ++ dot :: a) (sc ++ dot :: b) = name_eqb a b.
+Proof. rewrite name_eqb_app_cancel. cbn [name_eqb]. now rewrite N.eqb_refl. Qed.
+
+Lemma gstep_spec U sc first nm : wf U -> sc <> [] -> starts_with_dot sc = false ->
+  gstep U sc first nm = gstep_val U sc first nm.
+Proof.
+  intros W Hs Hl. unfold gstep, gstep_val, resolve_element_relative, query_all.
+  rewrite !Q_spec by (assumption || now apply app_no_lead). rewrite name_eqb_scope.
+  destruct (Spec.find_symbol U (sc ++ dot :: first)) as [k|]; [|reflexivity].
+  pose proof (is_aggregate_from_find (sc ++ dot :: first) k) as HA.
+  destruct k as [k0|]; cbn [from_find] in *; rewrite HA;
+    (destruct (name_eqb first nm); [reflexivity|]);
+    (destruct (negb _); [reflexivity|]);
+    destruct (Spec.find_symbol U (sc ++ dot :: nm)) as [[k'|]|]; reflexivity.
+Qed.
+
+Lemma groot_spec U nm : wf U -> starts_with_dot nm = false ->
+  groot U nm = from_find nm (Spec.find_symbol U nm).
+Proof.
+  intros W Hn. unfold groot, resolve_element_relative, query_all. rewrite Q_spec by assumption.
+  rewrite name_eqb_refl. destruct (Spec.find_symbol U nm) as [[k|]|]; reflexivity.
+Qed.
+
+(* the loop of result.resolve over the answers of the scopes *)
+Definition passes (ot smpl : bool) (d : gres) : bool := negb ot || is_type_g d || negb smpl.
+
+Fixpoint gloop (ot smpl : bool) (ds : list gres) (best : gres) : gres :=
+  match ds with
+  | [] => best
+  | d :: r =>
+    match d with
+    | GNil => gloop ot smpl r best
+    | _ => if passes ot smpl d then d
+           else gloop ot smpl r (match best with GNil => d | _ => best end)
+    end
+  end.
+
+Lemma resolve_loop_gloop U first nm ot scopes best :
+  resolve_loop U first nm ot scopes best
+  = gloop ot (name_eqb first nm) (map (fun sc => run_scope U sc first nm) scopes) best.
+Proof.
+  revert best. induction scopes as [|sc r IH]; intros best; cbn [resolve_loop map gloop]; [reflexivity|].
+  unfold passes. destruct (run_scope U sc first nm); rewrite ?IH; reflexivity.
+Qed.
+
+Lemma gloop_cons_nonnil ot smpl d r best : d <> GNil ->
+  gloop ot smpl (d :: r) best
+  = if passes ot smpl d then d else gloop ot smpl r (match best with GNil => d | _ => best end).
+Proof. destruct d; [contradiction|reflexivity|reflexivity]. Qed.
+
+Lemma gloop_cons_nil ot smpl r best : gloop ot smpl (GNil :: r) best = gloop ot smpl r best.
+Proof. reflexivity. Qed.
+
+Lemma from_find_some_nonnil n k : from_find n (Some k) <> GNil.
+Proof. destruct k as [k0|]; discriminate. Qed.
+
+(* protoc's loop over an explicit list of scopes (innermost first); [] is the outermost lookup *)
+Fixpoint absA (U : universe) (first nm : name) (m : Spec.mode) (L : list name) : Spec.sres :=
+  match L with
+  | [] => Spec.of_find nm (Spec.find_symbol U nm)
+  | sc :: L' =>
+    let cand := sc ++ dot :: first in
+    match Spec.find_symbol U cand with
+    | Some k =>
+      if (length first <? length nm)%nat then
+        if Spec.is_aggregate k then
+          let full := cand ++ skipn (length first) nm in
+          match Spec.find_symbol U full with
+          | Some k' => Spec.SFound full k'
+          | None => Spec.SUndefined full
+          end
+        else absA U first nm m L'
+      else
+        match m with
+        | Spec.LookupTypes => if Spec.is_type k then Spec.SFound cand k else absA U first nm m L'
+        | Spec.LookupAll => Spec.SFound cand k
+        end
+    | None => absA U first nm m L'
+    end
+  end.
+
+Lemma length_join_ge cs : all_simple cs -> (length cs <= length (join_dots cs))%nat.
+Proof.
+  induction cs as [|c cs IH]; intros H; [cbn; lia|]. inversion H as [|? ? Hc Hcs]. subst.
+  apply simple_inv in Hc. destruct Hc as [Hc _]. destruct cs as [|d cs].
+  - cbn. destruct c; [contradiction|cbn; lia].
+  - rewrite join_cons by discriminate. rewrite app_length. cbn [length]. specialize (IH Hcs). cbn [length] in IH. lia.
+Qed.
+
+Lemma spec_loop_abs U first nm m : forall cs c fuel, all_simple (cs ++ [c]) -> (length cs < fuel)%nat ->
+  Spec.lookup_loop U first nm m fuel (join_dots (cs ++ [c])) = absA U first nm m (map join_dots (npd cs)).
+Proof.
+  induction cs as [|c' cs IH] using rev_ind; intros c fuel H Hf.
+  - destruct fuel; [lia|]. cbn [app join_dots Spec.lookup_loop]. inversion H as [|? ? Hc _]. subst.
+    apply simple_inv in Hc. destruct Hc as [_ Hc]. rewrite fld_nodot by assumption. reflexivity.
+  - destruct fuel; [lia|]. rewrite npd_snoc. cbn [map absA Spec.lookup_loop].
+    assert (Hc : no_dot c = true).
+    { unfold all_simple in H. apply Forall_app in H. destruct H as [_ H]. inversion H as [|? ? Hc _]. now apply simple_inv in Hc. }
+    rewrite join_snoc by (destruct cs; discriminate). rewrite fld_app_nodot by assumption.
+    rewrite firstn_app, Nat.sub_diag, firstn_all. cbn [firstn]. rewrite app_nil_r.
+    assert (Hcs : all_simple (cs ++ [c'])).
+    { unfold all_simple in *. apply Forall_app in H. tauto. }
+    rewrite app_length in Hf. cbn [length] in Hf.
+    rewrite (IH c' fuel Hcs) by lia.
+    reflexivity.
+Qed.
+
+Lemma find_symbol_none_pkg U n : Spec.find_symbol U n = None -> Spec.is_package U n = false.
+Proof. unfold Spec.find_symbol. destruct (Spec.first_some _ _); [discriminate|]. destruct (Spec.is_package U n); [discriminate|reflexivity]. Qed.
+
+Section MainInduction.
+  Variable U : universe.
+  Variable nm : name.
+  Variable m : Spec.mode.
+  Hypothesis W : wf U.
+  Hypothesis Hnm : starts_with_dot nm = false.
+  Let first := Spec.first_part nm.
+  Let ot := Spec.only_types m.
+  Let smpl := name_eqb first nm.
+
+  Definition nontype_g (d : gres) : Prop :=
+    match d with
+    | GDesc n k => Spec.is_type (Spec.SK k) = false
+    | GSentinel n => Spec.is_package U n = true
+    | GNil => False
+    end.
+  Definition best_ok (best : gres) : Prop :=
+    best = GNil \/ (m = Spec.LookupTypes /\ smpl = true /\ nontype_g best).
+
+  Lemma nontype_outcome d : m = Spec.LookupTypes -> nontype_g d ->
+    Spec.outcome_of m (Spec.to_spec U d) = Spec.ONotAType.
+  Proof.
+    intros -> H. destruct d as [|n k|n]; cbn [nontype_g] in H; [contradiction| |].
+    - cbn [Spec.to_spec Spec.outcome_of Spec.not_a_type]. now rewrite H.
+    - cbn [Spec.to_spec]. rewrite H. reflexivity.
+  Qed.
+
+  Lemma nontype_from_find n k : Spec.find_symbol U n = Some k -> Spec.is_type k = false ->
+    nontype_g (from_find n (Some k)).
+  Proof.
+    intros Hf Ht. destruct k as [k0|]; cbn [from_find nontype_g]; [assumption|]. now apply find_symbol_package.
+  Qed.
+
+  Lemma best_merge best d : best_ok best -> m = Spec.LookupTypes -> smpl = true -> nontype_g d ->
+    best_ok (match best with GNil => d | _ => best end).
+  Proof.
+    intros [->|Hb] Hm Hs Hd; [right; auto|]. destruct best; [right; auto|right; tauto|right; tauto].
+  Qed.
+
+  Lemma fixed_main : forall L best,
+    (forall sc, In sc L -> sc <> [] /\ starts_with_dot sc = false) -> best_ok best ->
+    Spec.outcome_of m (Spec.to_spec U (gloop ot smpl (map (fun sc => gstep U sc first nm) L ++ [groot U nm]) best))
+    = Spec.outcome_of m (absA U first nm m L).
+  Proof.
+    induction L as [|sc L IH]; intros best HL Hb.
+    - cbn [map app absA]. rewrite groot_spec by assumption.
+      destruct (Spec.find_symbol U nm) as [k|] eqn:E.
+      + rewrite gloop_cons_nonnil by apply from_find_some_nonnil. cbn [gloop].
+        destruct (passes ot smpl (from_find nm (Some k))) eqn:P.
+        * now rewrite (to_spec_from_find U nm (Some k) E).
+        * unfold passes in P. rewrite is_type_from_find in P.
+          apply orb_false_iff in P. destruct P as [P P3]. apply orb_false_iff in P. destruct P as [P1 P2].
+          apply negb_false_iff in P1, P3. unfold ot in P1.
+          assert (Hm : m = Spec.LookupTypes) by (destruct m; [discriminate|reflexivity]).
+          rewrite nontype_outcome; [|assumption|].
+          -- cbn [Spec.of_find]. rewrite Hm. cbn [Spec.outcome_of Spec.not_a_type]. now rewrite P2.
+          -- pose proof (best_merge best _ Hb Hm P3 (nontype_from_find nm k E P2)) as [Hx|(_ & _ & Hx)]; [|exact Hx].
+             exfalso. destruct best; [now apply (from_find_some_nonnil nm k)|discriminate|discriminate].
+      + cbn [from_find gloop Spec.of_find]. destruct Hb as [->|(Hm & _ & Hb)]; [reflexivity|].
+        rewrite nontype_outcome by assumption. rewrite Hm. reflexivity.
+    - destruct (HL sc (or_introl eq_refl)) as [Hs1 Hs2].
+      assert (HL' : forall sc0, In sc0 L -> sc0 <> [] /\ starts_with_dot sc0 = false) by (intros; apply HL; now right).
+      cbn [map app absA]. rewrite gstep_spec by assumption. unfold gstep_val.
+      pose proof (first_part_compound nm) as FC. fold first in FC. fold smpl in FC. rewrite FC. clear FC.
+      change (name_eqb first nm) with smpl.
+      destruct (Spec.find_symbol U (sc ++ dot :: first)) as [k|] eqn:E; [|rewrite gloop_cons_nil; now apply IH].
+      destruct smpl eqn:Es; cbn [negb].
+      + (* unqualified name *)
+        rewrite gloop_cons_nonnil by apply from_find_some_nonnil.
+        unfold passes at 1. rewrite is_type_from_find. cbn [negb]. rewrite orb_false_r.
+        destruct m eqn:Em; cbn [Spec.only_types] in *; subst ot; cbn [negb orb].
+        * now rewrite (to_spec_from_find U _ (Some k) E).
+        * destruct (Spec.is_type k) eqn:Et.
+          -- now rewrite (to_spec_from_find U _ (Some k) E).
+          -- apply IH; [assumption|]. apply best_merge; auto. now apply nontype_from_find.
+      + (* qualified name *)
+        destruct (Spec.is_aggregate k); cbn [negb]; [|rewrite gloop_cons_nil; now apply IH].
+        assert (Hfull : (sc ++ dot :: first) ++ skipn (length first) nm = sc ++ dot :: nm).
+        { rewrite <- app_assoc. cbn [app]. unfold first. now rewrite first_part_skipn. }
+        rewrite Hfull.
+        destruct (Spec.find_symbol U (sc ++ dot :: nm)) as [k'|] eqn:E'.
+        * rewrite gloop_cons_nonnil by apply from_find_some_nonnil.
+          unfold passes. cbn [negb]. rewrite orb_true_r.
+          now rewrite (to_spec_from_find U _ (Some k') E').
+        * rewrite gloop_cons_nonnil by discriminate.
+          unfold passes. cbn [negb]. rewrite orb_true_r. cbn [Spec.to_spec].
+          now rewrite (find_symbol_none_pkg U _ E').
+  Qed.
+End MainInduction.
+
+(* ------------------------------------------------------------------ the scope lists *)
+Fixpoint ext_prefixes (Q path : list name) : list (list name) :=
+  match path with
+  | [] => []
+  | c :: r => (Q ++ [c]) :: ext_prefixes (Q ++ [c]) r
+  end.
+
+Lemma all_simple_app a b : all_simple (a ++ b) <-> all_simple a /\ all_simple b.
+Proof. unfold all_simple. apply Forall_app. Qed.
+
+Lemma all_simple_one c : simple c = true -> all_simple [c].
+Proof. intros H. constructor; [assumption|constructor]. Qed.
+
+Lemma msg_fqns_join path : forall Q, all_simple Q -> all_simple path ->
+  msg_fqns (join_dots Q) path = map join_dots (ext_prefixes Q path).
+Proof.
+  induction path as [|c r IH]; intros Q HQ Hp; cbn [msg_fqns ext_prefixes map]; [reflexivity|].
+  inversion Hp as [|? ? Hc Hr]. subst. rewrite qualify_join by assumption. f_equal.
+  apply IH; [|assumption]. apply all_simple_app. split; [assumption|now apply all_simple_one].
+Qed.
+
+Lemma ext_npd path : forall Q, rev (ext_prefixes Q path) ++ npd Q = npd (Q ++ path).
+Proof.
+  induction path as [|c r IH]; intros Q; cbn [ext_prefixes rev].
+  - now rewrite app_nil_r.
+  - rewrite <- app_assoc. cbn [app]. rewrite <- npd_snoc. rewrite IH. now rewrite <- app_assoc.
+Qed.
+
+Lemma last_default {A} (l : list A) d d' : l <> [] -> last l d = last l d'.
+Proof.
+  induction l as [|a l IH]; [contradiction|]. intros _. destruct l as [|b l]; [reflexivity|].
+  change (last (a :: b :: l) d) with (last (b :: l) d). change (last (a :: b :: l) d') with (last (b :: l) d').
+  apply IH. discriminate.
+Qed.
+
+Lemma last_ext path : forall Q, last (map join_dots (ext_prefixes Q path)) (join_dots Q) = join_dots (Q ++ path).
+Proof.
+  induction path as [|c r IH]; intros Q; cbn [ext_prefixes map].
+  - cbn. now rewrite app_nil_r.
+  - destruct r as [|c2 r].
+    + reflexivity.
+    + change (last (join_dots (Q ++ [c]) :: map join_dots (ext_prefixes (Q ++ [c]) (c2 :: r))) (join_dots Q))
+        with (last (map join_dots (ext_prefixes (Q ++ [c]) (c2 :: r))) (join_dots Q)).
+      rewrite (last_default _ (join_dots Q) (join_dots (Q ++ [c]))) by (cbn; discriminate).
+      rewrite IH. now rewrite <- app_assoc.
+Qed.
+
+Lemma ext_prefixes_in path : forall Q q, all_simple Q -> all_simple path -> In q (ext_prefixes Q path) ->
+  all_simple q /\ q <> [].
+Proof.
+  induction path as [|c r IH]; intros Q q HQ Hp; cbn [ext_prefixes]; [contradiction|].
+  inversion Hp as [|? ? Hc Hr]. subst.
+  assert (HQc : all_simple (Q ++ [c])) by (apply all_simple_app; split; [assumption|now apply all_simple_one]).
+  intros [<-|Hin].
+  - split; [assumption|]. destruct Q; discriminate.
+  - now apply (IH (Q ++ [c])).
+Qed.
+
+Lemma join_nice q : all_simple q -> q <> [] -> join_dots q <> [] /\ starts_with_dot (join_dots q) = false.
+Proof.
+  intros H Hq. split; [|now apply join_no_lead]. intros E. apply join_nil_iff in E; auto.
+Qed.
+
+Lemma run_msg U M first nm : wf U -> M <> [] -> starts_with_dot M = false -> In M (names_of (u_self U)) ->
+  run_scope U (ScMsg M) first nm = gstep U M first nm.
+Proof.
+  intros W HM Hl Hin. cbn [run_scope]. unfold message_scope, gstep, resolve_element_relative.
+  now rewrite !msg_query_eq by assumption.
+Qed.
+
+Lemma run_prefix U p first nm : p <> [] -> run_scope U (ScPrefix p) first nm = gstep U p first nm.
+Proof. intros Hp. cbn [run_scope]. unfold file_scope_step. destruct p; [contradiction|reflexivity]. Qed.
+
+Fixpoint first_nonnil (ds : list gres) : gres :=
+  match ds with
+  | [] => GNil
+  | GNil :: r => first_nonnil r
+  | d :: _ => d
+  end.
+
+Lemma file_scope_loop_first U ps first nm :
+  file_scope_loop U ps first nm = first_nonnil (map (fun p => file_scope_step U p first nm) ps).
+Proof.
+  induction ps as [|p ps IH]; cbn [file_scope_loop map first_nonnil]; [reflexivity|].
+  destruct (file_scope_step U p first nm); [assumption|reflexivity|reflexivity].
+Qed.
+
+(* everything the hypotheses give about the element that holds the reference *)
+Record scope_facts (U : universe) (path : list name) (elem : name) (P : list name) : Prop := {
+  sf_P : all_simple P;
+  sf_pkg : join_dots P = f_pkg (u_self U);
+  sf_path : all_simple path;
+  sf_elem : simple elem = true;
+  sf_def : forall M, In M (msg_fqns (f_pkg (u_self U)) path) -> In M (names_of (u_self U)) }.
+
+Lemma scope_ok_facts U path elem : wf U -> scope_ok U path elem = true ->
+  scope_facts U path elem (pkg_comps (f_pkg (u_self U))).
+Proof.
+  intros W H. unfold scope_ok in H. apply andb_true_iff in H. destruct H as [H H3].
+  apply andb_true_iff in H. destruct H as [H1 H2].
+  destruct (pkg_ok_comps (f_pkg (u_self U))) as [HP HJ]; [apply (wf_pkg U W); now left|].
+  constructor; try assumption.
+  - now apply all_simple_forallb.
+  - intros M HM. rewrite forallb_forall in H3. apply H3 in HM. now apply mem_name_In.
+Qed.
+
+Lemma relative_to_join U path elem P : scope_facts U path elem P ->
+  relative_to U path elem = join_dots ((P ++ path) ++ [elem]).
+Proof.
+  intros F. unfold relative_to. rewrite <- (sf_pkg _ _ _ _ F).
+  rewrite msg_fqns_join by apply F. rewrite last_ext. apply qualify_join.
+  apply all_simple_app. split; apply F.
+Qed.
+
+Lemma msg_steps U path elem P first nm : wf U -> scope_facts U path elem P ->
+  map (fun sc => run_scope U sc first nm) (map ScMsg (rev (msg_fqns (f_pkg (u_self U)) path)))
+  = map (fun sc => gstep U sc first nm) (map join_dots (rev (ext_prefixes P path))).
+Proof.
+  intros W F. rewrite map_map. rewrite <- (sf_pkg _ _ _ _ F) at 1.
+  rewrite msg_fqns_join by apply F. rewrite <- map_rev. rewrite !map_map.
+  apply map_ext_in. intros q Hq. apply in_rev in Hq.
+  destruct (ext_prefixes_in path P q (sf_P _ _ _ _ F) (sf_path _ _ _ _ F) Hq) as [Hq1 Hq2].
+  destruct (join_nice q Hq1 Hq2) as [Hj1 Hj2].
+  apply run_msg; try assumption. apply (sf_def _ _ _ _ F).
+  rewrite <- (sf_pkg _ _ _ _ F). rewrite msg_fqns_join by apply F. now apply in_map.
+Qed.
+
+Lemma prefix_steps U path elem P first nm : scope_facts U path elem P ->
+  map (fun p => file_scope_step U p first nm) (create_prefix_list (f_pkg (u_self U)))
+  = map (fun sc => gstep U sc first nm) (map join_dots (npd P)) ++ [groot U nm].
+Proof.
+  intros F. rewrite <- (sf_pkg _ _ _ _ F). rewrite create_prefix_list_spec_lemma by apply F.
+  unfold prefixes_desc. rewrite !map_app. cbn [map join_dots]. f_equal.
+  rewrite !map_map. apply map_ext_in. intros p Hp.
+  destruct (npd_all_simple P p (sf_P _ _ _ _ F) Hp) as [H1 H2]. destruct (join_nice p H1 H2) as [H3 _].
+  unfold file_scope_step. destruct (join_dots p); [contradiction|reflexivity].
+Qed.
+
+Lemma ds_fixed U path elem P first nm : wf U -> scope_facts U path elem P ->
+  map (fun sc => run_scope U sc first nm) (rev (scopes_for_fixed U path))
+  = map (fun sc => gstep U sc first nm) (map join_dots (npd (P ++ path))) ++ [groot U nm].
+Proof.
+  intros W F. unfold scopes_for_fixed. rewrite rev_app_distr, map_app.
+  rewrite <- !map_rev, rev_involutive. rewrite (msg_steps U path elem P) by assumption.
+  rewrite (map_map ScPrefix (fun sc => run_scope U sc first nm)). cbn [run_scope].
+  rewrite (prefix_steps U path elem P) by assumption.
+  rewrite app_assoc, <- !map_app. now rewrite ext_npd.
+Qed.
+
+Lemma ds_asis U path elem P first nm : wf U -> scope_facts U path elem P ->
+  map (fun sc => run_scope U sc first nm) (rev (scopes_for U path))
+  = map (fun sc => gstep U sc first nm) (map join_dots (rev (ext_prefixes P path)))
+    ++ [first_nonnil (map (fun sc => gstep U sc first nm) (map join_dots (npd P)) ++ [groot U nm])].
+Proof.
+  intros W F. unfold scopes_for. cbn [rev]. rewrite map_app. rewrite <- map_rev.
+  rewrite (msg_steps U path elem P) by assumption. f_equal. cbn [map run_scope]. f_equal.
+  unfold file_scope. rewrite file_scope_loop_first. now rewrite (prefix_steps U path elem P).
+Qed.
+
+Lemma npd_nice cs sc : all_simple cs -> In sc (map join_dots (npd cs)) -> sc <> [] /\ starts_with_dot sc = false.
+Proof.
+  intros H Hin. apply in_map_iff in Hin. destruct Hin as (p & <- & Hp).
+  destruct (npd_all_simple cs p H Hp). now apply join_nice.
+Qed.
+
+(* ------------------------------------------------------------------ absolute names, totality *)
+Lemma double_dot_tail c rest : double_dot (c :: rest) = false -> starts_with_dot (c :: rest) = true ->
+  starts_with_dot rest = false.
+Proof.
+  cbn [starts_with_dot double_dot]. intros H1 H2. rewrite H2 in H1. destruct rest; [reflexivity|exact H1].
+Qed.
+
+Lemma resolve_absolute_lemma U path ot n :
+  go_resolve U path (dot :: n) ot = resolve_element U n /\
+  (wf_universe U = true -> starts_with_dot n = false ->
+   Spec.to_spec U (go_resolve U path (dot :: n) ot) = Spec.of_find n (Spec.find_symbol U n)).
+Proof.
+  assert (E : go_resolve U path (dot :: n) ot = resolve_element U n).
+  { unfold go_resolve, resolve. cbn [starts_with_dot tl]. now rewrite N.eqb_refl. }
+  split; [exact E|]. intros W Hn. apply wf_universe_wf in W. rewrite E, Q_spec by assumption.
+  now apply to_spec_from_find.
+Qed.
+
+Lemma loop_total U first nm m : forall fuel s, (length s < fuel)%nat ->
+  Spec.lookup_loop U first nm m fuel s <> Spec.SOutOfFuel.
+Proof.
+  induction fuel as [|fuel IH]; intros s Hl; [lia|]. cbn [Spec.lookup_loop].
+  destruct (Spec.find_last_dot s) as [i|] eqn:E.
+  - apply fld_lt in E.
+    assert (Hr : Spec.lookup_loop U first nm m fuel (firstn i s) <> Spec.SOutOfFuel).
+    { apply IH. rewrite firstn_length. lia. }
+    destruct (Spec.find_symbol U (firstn i s ++ dot :: first)) as [k|]; [|exact Hr].
+    destruct (length first <? length nm)%nat.
+    + destruct (Spec.is_aggregate k); [|exact Hr]. destruct (Spec.find_symbol U _); discriminate.
+    + destruct m; [discriminate|]. destruct (Spec.is_type k); [discriminate|exact Hr].
+  - destruct (Spec.find_symbol U nm); discriminate.
+Qed.
+
+Lemma lookup_total_lemma U rel nm m : Spec.lookup U rel nm m <> Spec.SOutOfFuel.
+Proof.
+  unfold Spec.lookup. destruct (starts_with_dot nm).
+  - destruct (Spec.find_symbol U (tl nm)); discriminate.
+  - apply loop_total. lia.
+Qed.
+
+(* ------------------------------------------------------------------ main theorems *)
+Lemma absolute_case U path elem c rest m (go : universe -> list name -> name -> bool -> gres) :
+  (forall ot, go U path (c :: rest) ot = resolve_element U rest) ->
+  wf U -> double_dot (c :: rest) = false -> starts_with_dot (c :: rest) = true ->
+  Spec.outcome_of m (Spec.to_spec U (go U path (c :: rest) (Spec.only_types m)))
+  = Spec.outcome_of m (Spec.lookup U (relative_to U path elem) (c :: rest) m).
+Proof.
+  intros Hgo W Hdd Hs. pose proof (double_dot_tail c rest Hdd Hs) as Hr.
+  rewrite Hgo. unfold Spec.lookup. rewrite Hs. cbn [tl]. rewrite Q_spec by assumption.
+  now rewrite (to_spec_from_find U rest _ eq_refl).
+Qed.
+
+Lemma repaired_resolve_eq_protoc_lemma U path elem nm m :
+  wf_universe U = true -> scope_ok U path elem = true -> double_dot nm = false ->
+  Spec.outcome_of m (Spec.to_spec U (go_resolve_fixed U path nm (Spec.only_types m)))
+  = Spec.outcome_of m (Spec.lookup U (relative_to U path elem) nm m).
+Proof.
+  intros Hw Hs Hdd. apply wf_universe_wf in Hw. destruct (starts_with_dot nm) eqn:Hsd.
+  - destruct nm as [|c rest]; [discriminate|]. apply absolute_case; try assumption.
+    intros ot. unfold go_resolve_fixed, resolve. now rewrite Hsd.
+  - pose proof (scope_ok_facts U path elem Hw Hs) as F. set (P := pkg_comps (f_pkg (u_self U))) in *.
+    unfold go_resolve_fixed, resolve. rewrite Hsd. rewrite first_name_part by assumption.
+    rewrite resolve_loop_gloop. rewrite (ds_fixed U path elem P) by assumption.
+    unfold Spec.lookup. rewrite Hsd. rewrite (relative_to_join U path elem P F).
+    assert (HA : all_simple ((P ++ path) ++ [elem])).
+    { apply all_simple_app. split; [apply all_simple_app; split; apply F|apply all_simple_one; apply F]. }
+    rewrite spec_loop_abs; [|assumption|].
+    + apply fixed_main; try assumption.
+      * intros sc Hsc. apply (npd_nice (P ++ path)); [|assumption]. apply all_simple_app. split; apply F.
+      * now left.
+    + pose proof (length_join_ge _ HA) as L. rewrite app_length in L. cbn [length] in L. lia.
+Qed.
+
+(* the guard under which the code as it is agrees with protoc: the reference is not an
+   unqualified type reference, or no package level of the file holds a non-type of that name *)
+Definition pkg_level_clean (U : universe) (nm : name) : bool :=
+  forallb (fun p => match Spec.find_symbol U (join_dots p ++ dot :: nm) with
+                    | Some k => Spec.is_type k
+                    | None => true
+                    end)
+          (npd (pkg_comps (f_pkg (u_self U)))).
+
+Definition guard (U : universe) (nm : name) (m : Spec.mode) : bool :=
+  negb (Spec.only_types m) || negb (no_dot nm) || pkg_level_clean U nm.
+
+Lemma smpl_nodot nm : name_eqb (Spec.first_part nm) nm = no_dot nm.
+Proof.
+  destruct (no_dot nm) eqn:E.
+  - now apply first_part_eq_nodot.
+  - destruct (name_eqb (Spec.first_part nm) nm) eqn:E2; [|reflexivity]. apply first_part_eq_nodot in E2. congruence.
+Qed.
+
+Lemma in_removelast_cons {A} (x d : A) l : In d (removelast l) -> In d (removelast (x :: l)).
+Proof. destruct l; [contradiction|]. intros H. now right. Qed.
+
+Lemma gloop_first_nonnil ot smpl : forall B best,
+  (forall d, In d (removelast B) -> d = GNil \/ passes ot smpl d = true) ->
+  gloop ot smpl [first_nonnil B] best = gloop ot smpl B best.
+Proof.
+  induction B as [|d B IH]; intros best H; [reflexivity|].
+  destruct d as [|n k|n].
+  - cbn [first_nonnil]. rewrite gloop_cons_nil. apply IH. intros d Hd. apply H. now apply in_removelast_cons.
+  - cbn [first_nonnil]. rewrite !gloop_cons_nonnil by discriminate. destruct B as [|b B]; [reflexivity|].
+    destruct (H (GDesc n k)) as [Hx|Hx]; [now left|discriminate|]. now rewrite Hx.
+  - cbn [first_nonnil]. rewrite !gloop_cons_nonnil by discriminate. destruct B as [|b B]; [reflexivity|].
+    destruct (H (GSentinel n)) as [Hx|Hx]; [now left|discriminate|]. now rewrite Hx.
+Qed.
+
+Lemma gloop_collapse ot smpl B : forall A best,
+  (forall d, In d (removelast B) -> d = GNil \/ passes ot smpl d = true) ->
+  gloop ot smpl (A ++ [first_nonnil B]) best = gloop ot smpl (A ++ B) best.
+Proof.
+  induction A as [|d A IH]; intros best H; [now apply gloop_first_nonnil|].
+  cbn [app]. destruct d as [|n k|n].
+  - rewrite !gloop_cons_nil. now apply IH.
+  - rewrite !gloop_cons_nonnil by discriminate. destruct (passes ot smpl (GDesc n k)); [reflexivity|now apply IH].
+  - rewrite !gloop_cons_nonnil by discriminate. destruct (passes ot smpl (GSentinel n)); [reflexivity|now apply IH].
+Qed.
+
+Lemma guard_steps U nm m P : wf U -> all_simple P -> P = pkg_comps (f_pkg (u_self U)) -> guard U nm m = true ->
+  forall d, In d (map (fun sc => gstep U sc (Spec.first_part nm) nm) (map join_dots (npd P))) ->
+  d = GNil \/ passes (Spec.only_types m) (name_eqb (Spec.first_part nm) nm) d = true.
+Proof.
+  intros W HP EP G d Hd. unfold passes. rewrite smpl_nodot. unfold guard in G.
+  destruct (Spec.only_types m); [|now right]. destruct (no_dot nm) eqn:End; [|right; now rewrite orb_true_r].
+  cbn [negb orb] in *. rewrite orb_false_r.
+  rewrite map_map in Hd. apply in_map_iff in Hd. destruct Hd as (p & <- & Hp).
+  destruct (npd_all_simple P p HP Hp) as [H1 H2]. destruct (join_nice p H1 H2) as [H3 H4].
+  rewrite gstep_spec by assumption. unfold gstep_val. rewrite first_part_nodot by assumption.
+  unfold pkg_level_clean in G. rewrite forallb_forall in G. rewrite <- EP in G. specialize (G p Hp).
+  destruct (Spec.find_symbol U (join_dots p ++ dot :: nm)) as [k|]; [|now left].
+  rewrite name_eqb_refl. right. now rewrite is_type_from_find.
+Qed.
+
+Lemma resolve_eq_protoc_partial_lemma U path elem nm m :
+  wf_universe U = true -> scope_ok U path elem = true -> double_dot nm = false -> guard U nm m = true ->
+  Spec.outcome_of m (Spec.to_spec U (go_resolve U path nm (Spec.only_types m)))
+  = Spec.outcome_of m (Spec.lookup U (relative_to U path elem) nm m).
+Proof.
+  intros Hw Hs Hdd G. rewrite <- (repaired_resolve_eq_protoc_lemma U path elem nm m Hw Hs Hdd).
+  apply wf_universe_wf in Hw. destruct (starts_with_dot nm) eqn:Hsd.
+  - unfold go_resolve, go_resolve_fixed, resolve. now rewrite Hsd.
+  - pose proof (scope_ok_facts U path elem Hw Hs) as F. set (P := pkg_comps (f_pkg (u_self U))) in *.
+    unfold go_resolve, go_resolve_fixed, resolve. rewrite Hsd. rewrite first_name_part by assumption.
+    rewrite !resolve_loop_gloop. rewrite (ds_fixed U path elem P), (ds_asis U path elem P) by assumption.
+    rewrite gloop_collapse.
+    + rewrite app_assoc, <- !map_app. now rewrite ext_npd.
+    + rewrite removelast_last. apply (guard_steps U nm m P); try assumption; [apply F|reflexivity].
+Qed.
+
+(* ------------------------------------------------------------------ witnesses *)
+(* package a.b: extension x and message M; imported package a: message x.
+   Inside a.b.M the type reference x is a.x for protoc; the Go code stops at the extension a.b.x. *)
+Definition ex_U : universe :=
+  mkU (mkFile [97;46;98]%N [([97;46;98;46;120]%N, KExtension); ([97;46;98;46;77]%N, KMessage)])
+      [mkFile [97]%N [([97;46;120]%N, KMessage)]].
+
+Lemma resolve_eq_protoc_refuted_lemma :
+  exists U path elem nm m,
+    wf_universe U = true /\ scope_ok U path elem = true /\ double_dot nm = false /\
+    go_resolve U path nm (Spec.only_types m) = GDesc [97;46;98;46;120]%N KExtension /\
+    Spec.lookup U (relative_to U path elem) nm m = Spec.SFound [97;46;120]%N (Spec.SK KMessage) /\
+    Spec.outcome_of m (Spec.to_spec U (go_resolve U path nm (Spec.only_types m)))
+    <> Spec.outcome_of m (Spec.lookup U (relative_to U path elem) nm m).
+Proof.
+  exists ex_U, [[77]%N], [102]%N, [120]%N, Spec.LookupTypes.
+  repeat split; try (vm_compute; reflexivity). vm_compute. discriminate.
+Qed.
+
+(* a reference spelled with two leading dots (only possible in descriptor form) *)
+Lemma double_dot_diverges_lemma :
+  go_resolve ex_U [[77]%N] [46;46;97;46;120]%N true = GDesc [97;46;120]%N KMessage /\
+  Spec.lookup ex_U (relative_to ex_U [[77]%N] [102]%N) [46;46;97;46;120]%N Spec.LookupTypes = Spec.SNone.
+Proof. split; vm_compute; reflexivity. Qed.
+
+Lemma resolve_example :
+  wf_universe ex_U = true /\ scope_ok ex_U [[77]%N] [102]%N = true /\
+  guard ex_U [97;46;120]%N Spec.LookupTypes = true /\ guard ex_U [120]%N Spec.LookupTypes = false /\
+  go_resolve ex_U [[77]%N] [97;46;120]%N true = GDesc [97;46;120]%N KMessage /\
+  go_resolve_fixed ex_U [[77]%N] [120]%N true = GDesc [97;46;120]%N KMessage /\
+  create_prefix_list [97;46;98]%N = [[97;46;98]%N; [97]%N; []].
+Proof. repeat split; vm_compute; reflexivity. Qed.
